@@ -74,7 +74,12 @@ def source_sets(sc):
         subprocess.run(["gzip", "-dc", os.path.join(REPO, "logs/programs/journal/Ubuntu22-user-1000x3.journal.gz")], stdout=f, check=True)
     with open(os.path.join(d2, "b.log"), "wb") as f:
         f.write(b"2023-04-02T07:06:50+00:00 src=B idx=0\n  more\n2023-04-02T07:07:00.789680+00:00 src=B idx=1\n")
-    sets.append((d2, ["b.log", "u.journal"], []))
+    # lines longer than the printer's internal buffer (2056 bytes), as head line and as continuation line
+    with open(os.path.join(d2, "long.log"), "wb") as f:
+        f.write(b"2023-04-02T07:06:45+00:00 src=L idx=0 " + b"L" * 3000 + b"\n" +
+                b"2023-04-02T07:06:55+00:00 src=L idx=1 short head\n" + b"  " + b"c" * 2500 + b"\n" +
+                b"2023-04-02T07:07:05+00:00 src=L idx=2 " + b"e" * 2100 + b"\n")
+    sets.append((d2, ["b.log", "u.journal", "long.log"], []))
     return sets
 
 
